@@ -167,6 +167,8 @@ pub fn %(name)s() {
             ("dup_sat", "let s: u8 = kani::any(); kani::assume(s >= 1 && s <= 64);", seg_expr(["s", "s"], [("s", A)]), "E::DuplicateSatellite", "the same satellite listed twice (symbolic id)"),
             ("dup_cell", "let s: u8 = kani::any(); kani::assume(s >= 1 && s <= 64);", seg_expr(["s"], [("s", A), ("s", A)]), "E::DuplicateSatelliteSignal", "the same cell listed twice"),
             ("sat_mismatch", "let s: u8 = kani::any(); let t: u8 = kani::any(); kani::assume(s >= 1 && s <= 64 && t >= 1 && t <= 64 && s != t);", seg_expr(["s"], [("t", A)]), "E::SatelliteMismatch", "satellite rows {s} and cell rows {t}, s != t"),
+            ("sat_list_empty", "let s: u8 = kani::any(); kani::assume(s >= 1 && s <= 64);", seg_expr([], [("s", A)]), "E::SatelliteMismatch", "cells but no satellite rows at all"),
+            ("cell_list_empty", "let s: u8 = kani::any(); kani::assume(s >= 1 && s <= 64);", seg_expr(["s"], []), "E::SatelliteMismatch", "satellite rows but no cells at all"),
             ("sat_unused", "let s: u8 = kani::any(); let t: u8 = kani::any(); kani::assume(s >= 1 && s <= 64 && t >= 1 && t <= 64 && s != t);", seg_expr(["s", "t"], [("s", A)]), "E::SatelliteMismatch", "a satellite without any cell"),
         ]
         for en, pre, expr, want, desc in errs:
